@@ -1,21 +1,57 @@
 //! Registry of property checks.
 use crate::engine::PropertyDef;
 
+pub mod c03;
 pub mod c04;
+pub mod c07;
+pub mod c08;
 pub mod c09;
+pub mod c11;
+pub mod c12;
 pub mod c14;
+pub mod c15;
+pub mod c16;
 pub mod c18;
 pub mod c19;
+pub mod c21;
+pub mod c22;
+pub mod c23;
+pub mod c24;
 pub mod c25;
+pub mod c26;
 pub mod c27;
+pub mod c28;
 pub mod c29;
+pub mod progdoc;
 pub mod util;
 
 pub fn all() -> Vec<PropertyDef> {
-    vec![c04::def(), c09::def(), c14::def(), c18::def(), c19::def(), c25::def(), c27::def(), c29::def()]
+    vec![
+        c03::def(),
+        c04::def(),
+        c07::def(),
+        c08::def(),
+        c09::def(),
+        c11::def(),
+        c12::def(),
+        c14::def(),
+        c15::def(),
+        c16::def(),
+        c18::def(),
+        c19::def(),
+        c21::def(),
+        c22::def(),
+        c23::def(),
+        c24::def(),
+        c25::def(),
+        c26::def(),
+        c27::def(),
+        c28::def(),
+        c29::def(),
+    ]
 }
 
-/// Drivers that run inside an isolated worker process (`vp worker`).
+/// Drivers that run inside an isolated worker process (`vp worker <mem-limit>`, pool protocol).
 pub fn worker_dispatch(kind: &str, payload: &[u8]) -> Vec<u8> {
     match kind {
         "c18" => c18::worker(payload),
@@ -24,5 +60,9 @@ pub fn worker_dispatch(kind: &str, payload: &[u8]) -> Vec<u8> {
 }
 
 pub fn worker_main(args: &[String]) {
-    crate::engine::isolate::worker_main(args, worker_dispatch);
+    match args.first().map(|s| s.as_str()) {
+        // one-shot worker of C21's termination clause: `vp worker c21 <file>`
+        Some("c21") => c21::worker_main(&args[1..]),
+        _ => crate::engine::isolate::worker_main(args, worker_dispatch),
+    }
 }
